@@ -272,8 +272,8 @@ def symbols(k):
 def verdicts(tabs, i, j):
     """all forms of the comparison of tabs[i] with tabs[j] -> dict name -> says-equal (bool)"""
     T, U = tabs[i], tabs[j]
-    return {'==': bool(T == U), '!=': not bool(T != U),
-            'descriptive_equality': T.descriptive_equality(U) == 'Tables appear equal'}
+    return {'T == U': bool(T == U), 'not (T != U)': not bool(T != U),
+            'descriptive_equality says equal': T.descriptive_equality(U) == 'Tables appear equal'}
 
 
 def walk_equal(tabs, contents, depth, prefix, problems, want_equal=True):
